@@ -204,6 +204,7 @@ func TestC01Stateful(t *testing.T) {
 		"transaction atomicity on FAULT is provided by neo-go (trusted)")
 	runRapid(t, col, func(rt *rapid.T, h *ev.History) {
 		n := rapid.SampledFrom([]int{1, 1, 3}).Draw(rt, "n")
+		drawValidators(rt, h, n)
 		w := newBalWorld(n, h)
 		defer w.close()
 		w.c01 = true
